@@ -71,8 +71,13 @@ def cases(draw):
     if lim is not None:
         lim = floatify(lim)
     spelling = "ig"
-    if kind == "LinReg" and "ig" in kw and draw(st.integers(0, 2)) == 0:
-        spelling = "iq"
+    if kind == "LinReg" and "ig" in kw:
+        r = draw(st.integers(0, 5))
+        if r in (0, 1):
+            spelling = "iq"
+        elif r == 2:
+            # a half-migrated file: the deprecated key still present with its default 0
+            kw["iq"] = draw(st.sampled_from([0.0, 0]))
     return {"kind": kind, "kw": kw, "limits": lim, "spelling": spelling}
 
 
